@@ -90,7 +90,10 @@ def t_id(s) -> int:
 
 HOSTS = ["example.com", "a", "b.example", "::1", "[::1]", "2001:db8::7", "a:1", "a:1:2", "a:1965", 'q"uote', "q'uote", "ünï.çödé", "日本語.jp",
          "xn--bcher-kva.de", "sp ace", "tab\there", "nl\nhost", "cr\rhost", "back\\slash", "[hosts]", "hosts.x", "a.b=c", "#hash", "", "nul\x00x",
-         "\x7f", "\x1f", "\x85", "\u2028", "\ufeff", "\U0010ffff", "emoji😀", " ", '"""', "'''", "a]b", "{x}", "k = 1", "A", "EXAMPLE.com", "a" * 300]
+         "\x7f", "\x1f", "\x85", "\u2028", "\ufeff", "\U0010ffff", "emoji😀", " ", '"""', "'''", "a]b", "{x}", "k = 1", "A", "EXAMPLE.com", "a" * 300,
+         # names an importer might take for something else: service labels and lone underscores (`_metadata` is the file's own table),
+         # look-alikes of the file's keys and of TOML's literals
+         "_gemini._tcp.example.org", "_", "_metadata", "__", "hosts", "version", "true", "0", "-", "."]
 PORTS = [1965, 1, 65535, 1966, 300]
 
 
@@ -522,7 +525,9 @@ def gen_store(rng: random.Random, nmax=5):
             continue
         keys.add((h, p))
         f = rng.randint(1, 400)
-        rows.append([h, p, rng.randint(1, 6), f, f + rng.choice([0, 0, 5, 90])])
+        # (last_seen BEFORE first_seen is what a store holds after a backup from a machine whose clock ran ahead was imported, or after the
+        # clock was stepped back between trust and verify: the round trip must reproduce it as it is)
+        rows.append([h, p, rng.randint(1, 6), f, max(0, f + rng.choice([0, 0, 5, 90, -1, -7, -400]))])
         if rng.random() < 0.35:                                   # the same host on another port
             p2 = rng.choice([q for q in PORTS if q != p])
             if (h, p2) not in keys:
@@ -1268,6 +1273,7 @@ class RoundTrip(Family):
         yield {"rows": [], "now": 900}
         yield {"rows": [[h, 1965, i + 1, 10 + i, 20 + i] for i, h in enumerate(HOSTS)], "now": 901}
         yield {"rows": [["a:1", 2, 1, 10, 10], ["a", 12, 2, 20, 20], ["a:1", 12, 3, 30, 30], ["a", 1, 4, 40, 40]], "now": 902}
+        yield {"rows": [["late.example", 1965, 1, 300, 20], ["b", 1965, 2, 21, 20], ["c", 7, 3, 399, 0]], "now": 905}        # first seen AFTER last seen
         # pairs that collide under plausible non-injective key formats (no separator, port dropped, host lower-cased, separator not last)
         yield {"rows": [["a1", 965, 1, 10, 10], ["a", 1965, 2, 20, 20], ["A", 1965, 3, 30, 30], ["a:19", 65, 4, 40, 40], ["a", 65, 5, 50, 50],
                         ["a", 19, 6, 60, 60], ["a:19:65", 1, 7, 70, 70]], "now": 903}
@@ -1295,7 +1301,9 @@ class RoundTrip(Family):
                     continue
                 keys.add((h, p))
                 f = rng.randint(1, 400)
-                rows.append([h, p, rng.randint(1, 10 ** 9), f, f + rng.choice([0, 7])])
+                # (a last_seen BEFORE the first_seen: a store restored from a backup of a machine whose clock ran ahead, or a clock stepped back
+                # between trust and verify - the round trip reproduces every first-seen value as it is, whatever its relation to last_seen)
+                rows.append([h, p, rng.randint(1, 10 ** 9), f, max(0, f + rng.choice([0, 7, 7, -1, -30, -400]))])
             case = {"rows": rows, "now": rng.randint(401, 999)}
             if rng.random() < 0.06:
                 case["env"] = rng.choice(envs)
